@@ -259,7 +259,9 @@ func genValue(t *rapid.T) value {
 
 // ---------------------------------------------------------------- keys
 
-var keySegments = []string{"a", "b", "ab", "a-b", "ä"}
+// segments that start with a dot are ordinary names. (No segment starts with two dots: a query prefix ".." would be a
+// parent reference when read as a path, which C18 wants refused.)
+var keySegments = []string{"a", "b", "ab", "a-b", "ä", ".h", "a.b", "a b"}
 
 func genKey(t *rapid.T) string {
 	n := rapid.IntRange(1, 3).Draw(t, "segs")
